@@ -412,6 +412,7 @@ def _finish_path(ob, params, pid, ctx, out, st, listed):
                                          "failing": [k for k, v in conc["parts"].items() if not v]}
 
     # 3. witness validation of the explored path against the unshimmed implementation
+    #    (also evaluates `aux_` obligations on the real code at the witness)
     if model is not None and out.obs is not None:
         if (st["paths"] - 1) % max(1, ob.witness_every) == 0:
             inputs = symx.model_inputs(ctx, model)
@@ -422,8 +423,25 @@ def _finish_path(ob, params, pid, ctx, out, st, listed):
                                                "params": _jsonable(params)})
             elif conc is None:
                 st["witness_skipped"] += 1
+            elif any(k.startswith("aux_") and not v for k, v in conc["parts"].items()) and not any(
+                    conc["known"].get(f) for f in regions):
+                # auxiliary obligations (layers no symbolic value can pass through, e.g. pandas) are evaluated on the
+                # real code at the solver-generated witness of every explored path; a failure there is a violation
+                # demonstrated on the real code
+                st["violations"].append({"obligation": ob.name, "params": _jsonable(params), "inputs": inputs,
+                                         "failing": [k for k, v in conc["parts"].items() if not v],
+                                         "choices": dict(ctx.choices), "obs": conc["obs"], "found_by": "path witness",
+                                         "concrete_failing": [k for k, v in conc["parts"].items() if not v]})
+                st["aux_checked"] = st.get("aux_checked", 0) + 1
             elif obs_equal(sym_obs, conc["obs"]):
                 st["witness_ok"] += 1
+                if any(k.startswith("aux_") for k in conc["parts"]):
+                    st["aux_checked"] = st.get("aux_checked", 0) + 1
+                    if any(k.startswith("aux_") and not v for k, v in conc["parts"].items()):
+                        for fid in regions:  # a listed finding, reproduced on the real code at this witness
+                            if conc["known"].get(fid) and not st["known_hits"].get(fid):
+                                st["known_hits"][fid] = {"inputs": inputs, "params": _jsonable(params),
+                                                         "failing": [k for k, v in conc["parts"].items() if not v]}
             else:
                 # a model on a decision boundary may legitimately differ in doubles: retry with
                 # another model of the same path before calling it a disagreement
@@ -706,7 +724,7 @@ def run_property(pid, tier, obligations, meta, jobs=None, seed=0):
 def _report(pid, tier, obligations, results, meta, wall, seed):
     listed = _listed_findings(pid)
     agg = {k: 0 for k in ("paths", "nontrivial", "infeasible", "decisions", "queries", "unknown_final",
-                            "unknown_feas", "witness_ok", "witness_skipped")}
+                            "unknown_feas", "witness_ok", "witness_skipped", "aux_checked", "witness_degenerate")}
     solver_s = 0.0
     violations, nonrepro, mismatches, errors, samples = [], [], [], [], []
     known_hits = {}
@@ -803,6 +821,8 @@ def _report(pid, tier, obligations, results, meta, wall, seed):
             "vacuous_obligations": vacuous,
             "witness_disagreements": len(mismatches),
             "witness_skipped": agg["witness_skipped"],
+            "witness_on_degenerate_paths": agg["witness_degenerate"],
+            "aux_concrete_checks_on_path_witnesses": agg["aux_checked"],
             "known_findings_hit": sorted(known_hits),
             "functions_encoded": meta.get("functions", []),
             "source_sha256": _source_hashes(meta.get("files", [])),
